@@ -311,6 +311,12 @@ def preemption_scan(ctx, rng, factory, edges, cap):
         tb.join()
         ctx.case(['preempt', factory, edges, specA, specB, k], True, f'threads.single-preemption.{factory}',
                  sample={'factory': factory, 'A': specA, 'B': specB, 'A_stopped_after_lines': k} if k in (1, 5) else None)
+        if res == want:
+            # whatever the overlap left behind in the graph: the same questions asked again, one after the other
+            try:
+                res = [sorted(standalone(g, specA)), [TermId.from_curie(specB[1]) in g, sorted(standalone(g, specB))]]
+            except Exception as e:  # noqa
+                res = f'afterwards raises {type(e).__name__}: {e}'
         if res != want:
             ctx.violation(f'{factory}:preempted-first-query', {
                 'case': {'kind': 'preempt', 'factory': factory, 'edges': edges, 'A': list(specA), 'B': list(specB), 'k': k},
@@ -554,12 +560,15 @@ print(json.dumps([c12.load_and_dump(json.loads(a)) for a in sys.argv[3:]]))
 '''
 
 
+_SHARED_LOADERS = {}
+
+
 def load_and_dump(job):
     """job = [kind, path]; kind in minimal|full|hpoa. Uses the DEFAULT (module-level, shared) factories."""
     import hpotk
     from props import c05, c08
     kind, path = job[0], job[1]
-    opts = job[2] if len(job) > 2 else {}
+    opts = dict(job[2]) if len(job) > 2 else {}
     with warnings.catch_warnings():
         warnings.simplefilter('ignore')
         if kind == 'minimal':
@@ -567,6 +576,11 @@ def load_and_dump(job):
         if kind == 'full':
             return c05.dump_impl(hpotk.load_ontology(path), True)
         from hpotk.annotations.load.hpoa import SimpleHpoaDiseaseLoader
+        if opts.pop('shared_loader', False):
+            key = json.dumps(opts, sort_keys=True)
+            if key not in _SHARED_LOADERS:
+                _SHARED_LOADERS[key] = SimpleHpoaDiseaseLoader(c08.toy_hpo(), **opts)
+            return c08.dump_impl(_SHARED_LOADERS[key].load(path))
         return c08.dump_impl(SimpleHpoaDiseaseLoader(c08.toy_hpo(), **opts).load(path))
 
 
@@ -603,6 +617,13 @@ def load_orders(ctx, rng, thorough):
         # the same annotation file through loaders that are configured differently (cohort size, salvaging of negated frequencies)
         jobs.append(['hpoa', p, {'cohort_size': 20, 'salvage_negated_frequencies': True}])
         jobs.append(['hpoa', p, {'cohort_size': 7}])
+        # ONE long-lived loader: first a broken file (the load raises: an unparsable frequency after a good line), then the good file
+        pb = os.path.join(world, 'broken.hpoa')
+        with open(pb, 'w', encoding='utf-8') as fh:
+            fh.write(''.join(l + '\n' for l in head + c08.consistent_names(lines)[:3]) +
+                     '\t'.join(['OMIM:999001', 'CONFIG SENSITIVE', '', 'HP:0000001', 'PMID:1', 'PCS', '', 'sometimes', '', '', 'P', 'HPO:x']) + '\n')
+        jobs.append(['hpoa', pb, {'shared_loader': True}])
+        jobs.append(['hpoa', p, {'shared_loader': True}])
         jobs.append(['full', jobs[0][1]])
         # reference: each job alone in a FRESH interpreter
         ref = {}
